@@ -804,4 +804,62 @@ C07OK(e) ==
        /\ e.td = e.t64
 
 DvsIOK(e, idx) == Has(e, "C07") => Chk("C07", idx, C07OK(e))
+
+(***************************************************************************)
+(* Independence of coordinate magnitude (C13).  An operation is run on a   *)
+(* small base input and on copies translated by t (|coordinates| up to     *)
+(* 2^52) or scaled by k (up to MaxCoord = 2^61).  The harness maps every   *)
+(* big result back to base units, q = round((v - t) / k); the mapping is   *)
+(* verified here in BigInt, and q must describe the same region as the     *)
+(* identity variant's result (variant 1) outside the band: 2 units for a   *)
+(* translation, 3 for a scaling (the property's 2 units + 2^-40 of the     *)
+(* extent in scaled units is far below one base unit; 1 unit pays for the  *)
+(* rounding of the mapping).                                               *)
+(***************************************************************************)
+MapBackOK(v) ==
+  /\ v.qok /\ Len(v.sol) = Len(v.q)
+  /\ \A k \in 1..Len(v.sol) : Len(v.sol[k]) = Len(v.q[k]) /\
+       \A i \in 1..Len(v.sol[k]) : \A c \in 1..2 :
+          GB!Cmp(GB!Mul(GB!AbsB(GB!Sub(GB!Sub(v.sol[k][i][c], v.t[c]), GB!Mul(v.k, GB!FromInt(v.q[k][i][c])))), GB!FromInt(2)),
+                 GB!AbsB(v.k)) <= 0
+
+MagBand(v) == IF v.kind = "t" THEN 8 ELSE 12
+
+BigPt(v, p) == <<GB!Add(GB!Mul(v.k, GB!FromInt(p[1])), v.t[1]), GB!Add(GB!Mul(v.k, GB!FromInt(p[2])), v.t[2])>>
+BigPath(v, path) == [i \in 1..Len(path) |-> BigPt(v, path[i])]
+
+PipExpectedB(bp, bpath) ==
+  IF Len(bpath) < 3 THEN 2
+  ELSE IF GB!OnClosedPathB(bp, bpath) THEN 0
+  ELSE IF (GB!WnPathB(bp, bpath) % 2) # 0 THEN 1 ELSE 2
+
+Pow2_50 == GB!Mul(GB!FromInt(33554432), GB!FromInt(33554432))
+
+C13OK(e) ==
+  LET base == e.vars[1] IN
+  /\ \A n \in 1..Len(e.vars) : e.vars[n].out = "ok"
+  /\ CASE e.op \in {"bool", "rect", "inflate"} ->
+            \A n \in 1..Len(e.vars) :
+               LET v == e.vars[n] r4 == MagBand(v) IN
+               /\ MapBackOK(v)
+               /\ \A j \in 1..Len(e.probes) :
+                    LET p == e.probes[j] IN
+                    (FarClosed(p, base.q, r4) /\ FarClosed(p, v.q, r4) /\ FarClosed(p, e.subj, r4) /\ FarClosed(p, e.clip, r4))
+                       => (WnPaths(p, v.q) = WnPaths(p, base.q))
+       [] e.op = "pip" ->
+            \A n \in 1..Len(e.vars) :
+               LET v == e.vars[n] IN
+               \* exact in BigInt up to 2^52 (products of differences stay exact in float64 for small shapes);
+               \* beyond, the answer must still be right for points off the polygon's 2-unit band
+               IF v.kind = "t" THEN v.n = PipExpectedB(BigPt(v, e.pt), BigPath(v, e.subj[1]))
+               ELSE FarClosedPath(e.pt, e.subj[1], Band4) => v.n = PipExpectedB(BigPt(v, e.pt), BigPath(v, e.subj[1]))
+       [] e.op = "area" ->
+            \A n \in 1..Len(e.vars) :
+               LET v == e.vars[n]  A2 == GB!Area2B(BigPath(v, e.subj[1])) IN
+               /\ v.b
+               /\ GB!Cmp(GB!Mul(GB!AbsB(GB!Sub(v.a2, A2)), Pow2_50), GB!AbsB(A2)) <= 0
+               /\ (v.n = 1) = (GB!Sign(A2) >= 0)
+       [] OTHER -> FALSE
+
+MagGroupOK(e, idx) == Has(e, "C13") => Chk("C13", idx, C13OK(e))
 =============================================================================
